@@ -295,6 +295,38 @@ def frame_obligation(rep):
             ns = [ast.unparse(a) for a in n.args[1:]]
             if any(a in aliases or a.endswith(".__globals__") for a in ns):
                 writes.append(f"exec into {ns}")
+    # FR2 (E3, flow-sensitive may-alias/effect inference; functools.wraps shares the attribute values of
+    # the wrapped function): nothing reachable from the argument is written
+    from vt import frame
+
+    an = frame.Analyzer(str(venv.SRC))
+    eff = an.effects.get(("_gettsim.vectorization", "make_vectorizable"))
+    name2 = "FR2 make_vectorizable writes nothing reachable from its argument (attributes such as __info__ are shared with the result by functools.wraps)"
+    if eff is None:
+        rep.ob(name2, "unsupported", "E3", 0, where, "frame", "function not found")
+    else:
+        w2 = sorted(x for x in eff.writes if not x.startswith("outer:"))
+        if not w2 and not eff.unknown_calls:
+            rep.ob(name2, "discharged", "E3", 0, where, "frame")
+        elif not w2:
+            rep.ob(name2, "unknown", "E3", 0, where, "frame", f"unknown calls {sorted(eff.unknown_calls)}")
+        else:
+            sites = [f"line {ln}: {txt}" for loc, ln, txt in eff.write_sites][:4]
+            rep.ob(name2, "refuted", "E3", 0, where, "frame", f"writes {w2} at {sites}")
+            code2 = """
+import copy, types, linecache
+src = 'def g(x):\\n    if x > 0:\\n        out = 1.0\\n    else:\\n        out = 2.0\\n    return out\\n'
+linecache.cache['<m>'] = (len(src), None, src.splitlines(True), '<m>')
+m = types.ModuleType('m'); exec(compile(src, '<m>', 'exec'), m.__dict__)
+m.g.__info__ = {'start_date': 1, 'nested': {'k': [1, 2]}}
+before = copy.deepcopy(m.g.__dict__)
+from _gettsim.vectorization import make_vectorizable
+make_vectorizable(m.g, 'numpy')
+print('ATTRIBUTES-CHANGED ' + repr(m.g.__dict__) if m.g.__dict__ != before else 'ATTRIBUTES-SAME')
+"""
+            p2 = subprocess.run([sys.executable, "-c", code2], capture_output=True, text=True, timeout=120)
+            out2 = p2.stdout.strip()
+            rep.violation("make_vectorizable:writes-argument", f"make_vectorizable writes into objects reachable from the function it is given ({'; '.join(sites)}); child interpreter: {out2!r}", {"obligation": name2, "writes": w2, "sites": sites, "child_output": out2, "code": code2}, failing_input_found="ATTRIBUTES-CHANGED" in out2)
     name = "FR make_vectorizable assigns nothing reachable from the function's module"
     if not writes:
         rep.ob(name, "discharged", "frame", 0, where, "frame")
